@@ -11,14 +11,20 @@ Independent of the exporter and of its model (imports neither):
   `qreg`/`creg` declarations, gate applications `name(expr, …) arg, …;` (including the built-ins `U`, `CX`),
   `measure a -> c;`, `reset a;`, `barrier a, …;`, `if (c == k) qop;`.  Everything else (gate definitions,
   `opaque`, empty statements, stray tokens) is a parse error with a class tag;
-* `qelib1` — the gate list of `qelib1.inc` as published with the OpenQASM 2.0 specification (arXiv:1707.03429):
-  the 23 gates `u3 u2 u1 cx id x y z h s sdg t tdg rx ry rz cz cy ch ccx crz cu1 cu3`, each with its *body*
-  over the built-ins; `gateMatrix` gives each application its meaning as a matrix (product of the embedded
-  matrices of the body).  Because every gate is a fixed circuit over `U` and `CX`, the global phase convention
-  chosen for `U` (here the one with `U[0][0]` real, `u3` of Qiskit; the specification text uses the
+* `qelib1` — the gate list of `qelib1.inc`: the 23 gates `u3 u2 u1 cx id x y z h s sdg t tdg rx ry rz cz cy ch
+  ccx crz cu1 cu3` of the file published with the OpenQASM 2.0 specification (arXiv:1707.03429), each with its
+  *body* over the built-ins; `gateMatrix` gives each application its meaning as a matrix (product of the
+  embedded matrices of the body).  Because every gate is a fixed circuit over `U` and `CX`, the global phase
+  convention chosen for `U` (here the one with `U[0][0]` real, `u3` of Qiskit; the specification text uses the
   determinant-1 form `Rz(φ)Ry(θ)Rz(λ)`) changes every meaning by a scalar only — the semantics below is
-  used up to a global phase per branch.  NOTE `cu3` is the *published* body, which implements
-  `1 ⊕ Rz(φ)Ry(θ)Rz(λ)`; later revisions of the file shipped with Qiskit add `u1((lambda+phi)/2) c;`.
+  used up to a global phase per branch.
+  READING USED FOR `cu3`: the *corrected* body, which starts with `u1((lambda+phi)/2) c;` (the file shipped with
+  Qiskit since the fix of its `cu3`), i.e. `cu3(θ,φ,λ) = 1 ⊕ u3(θ,φ,λ)`, the gate's documented intent
+  ("controlled-U3") and what every consumer of the name implements.  The body as first printed in the paper lacks
+  that statement and denotes `1 ⊕ Rz(φ)Ry(θ)Rz(λ)`, which differs by a relative phase `e^{i(φ+λ)/2}`; this is a
+  known erratum of the library file, not of an exporter that emits `cu3` for a controlled U3
+  (`Props/C11.remark_original_cu3_body` records the difference).  The other bodies (`cu1`, `crz`, `ch`, `ccx`,
+  `cy`, `cz`, `rx`, `ry`, `rz`) have no later correction that changes their meaning up to a global phase.
 * `wf` — well-formedness: registers declared (once, before use), indices in range, gate known (built-in, or
   from `qelib1.inc` if included) with the right number of parameters and arguments, parameter expressions
   closed, arguments of one application distinct, broadcast sizes equal;
@@ -378,7 +384,8 @@ def qelib1 : List GateDef := [
                           ("u1", [.neg (half (v "lambda"))], [1]), ("cx", [], [0, 1]),
                           ("u1", [half (v "lambda")], [1])]⟩,
   ⟨"cu3", ["theta", "phi", "lambda"], 2,
-    [("u1", [half (.sub (v "lambda") (v "phi"))], [1]), ("cx", [], [0, 1]),
+    [("u1", [half (.add (v "lambda") (v "phi"))], [0]),
+     ("u1", [half (.sub (v "lambda") (v "phi"))], [1]), ("cx", [], [0, 1]),
      ("u3", [.neg (half (v "theta")), .int 0, .neg (half (.add (v "phi") (v "lambda")))], [1]),
      ("cx", [], [0, 1]),
      ("u3", [half (v "theta"), v "phi", .int 0], [1])]⟩
